@@ -110,7 +110,7 @@ fn genp(prop: &str, seed: u64, tier: &str) -> Plan {
         "C25" => rq.tbf_ns = Some(*r.pick(&[1u64, 1_000_000, 1_000_000_000])),
         _ => {}
     }
-    let state_changes = matches!(prop, "C22") || (prop == "C20" && r.chance(0.5)) || (prop == "C23" && r.chance(0.3)) || (prop == "C19" && !writer_limits && r.chance(0.4));
+    let state_changes = matches!(prop, "C22") || (prop == "C20" && r.chance(0.5)) || (prop == "C23" && r.chance(0.3)) || (prop == "C19" && !writer_limits && r.chance(0.4)) || (prop == "C18" && r.chance(0.4));
     let mut setup = vec![
         Op::CreateParticipant { p: 0, domain: 0, tag: String::new(), announce_ms: r.range(50, 1000), q: Q::default(), l: None },
         Op::CreateTopic { p: 0, id: 0, name: "T".into(), ty: Ty::Keyed, q: Q::default(), l: None },
@@ -384,9 +384,9 @@ fn check(plan: &Plan, out: &Outcome, prop: &str) -> Verdict {
                     }
                     _ => continue,
                 };
-                if prop == "C19" && kind != Kind::Alive {
-                    // Whether a dispose / unregister notification occupies a sample slot of the limits is not
-                    // specified: from here on only the order-insensitive limit invariants are judged
+                if matches!(prop, "C19" | "C18") && kind != Kind::Alive {
+                    // Whether a dispose / unregister notification occupies a sample slot (of the limits, of the
+                    // KEEP_LAST depth) is not specified: from here on only the order-insensitive invariants are judged
                     m.ambiguous = Some("resource limits with dispose/unregister notifications".into());
                     v.probe("model.ambiguous", 1);
                     replay_complete = false;
@@ -672,6 +672,19 @@ fn check(plan: &Plan, out: &Outcome, prop: &str) -> Verdict {
                 }
                 if c.last != handle_of_key(*key) {
                     viol!("C19.rejected-handle", "C19.rejected-handle".into(), "sample_rejected last_instance_handle {:02x?} is not the handle of the rejected sample's instance (key {key})", &c.last[..4]);
+                }
+            }
+        }
+    }
+    if prop == "C18" && cfg.depth > 0 {
+        // order-insensitive: no read/take ever returns more than depth data samples of one instance
+        for rec in recs.iter() {
+            let (Op::R { r: 0, .. }, Res::Samples(Ok(got))) = (&rec.op, &rec.res) else { continue };
+            let inst: std::collections::BTreeSet<[u8; 16]> = got.iter().map(|s| s.ih).collect();
+            for ih in &inst {
+                let held: Vec<u32> = got.iter().filter(|s| s.valid && s.ih == *ih).map(|s| s.seq).collect();
+                if held.len() as u32 > cfg.depth {
+                    v.violate("C18", "C18.over-depth", "C18.over-depth".into(), format!("one read/take returned {} data samples {:?} of one instance of a KEEP_LAST({}) reader", held.len(), held, cfg.depth));
                 }
             }
         }
